@@ -14,9 +14,10 @@ package actor
 // ---- vocabulary ---------------------------------------------------------------------------------
 
 //@ spec hasAct(gs, idx, a) = 0 <= idx && idx < len(gs.Players) && gs.Players[idx] != nil
-//@     && exists(j, 0, len(gs.Players[idx].AllowedActions), gs.Players[idx].AllowedActions[j] == a)
+//@     && exists(j, 0, 10, j < len(gs.Players[idx].AllowedActions) && gs.Players[idx].AllowedActions[j] == a)
 //@ spec hasPos(gs, idx, p) = 0 <= idx && idx < len(gs.Players) && gs.Players[idx] != nil
-//@     && exists(j, 0, len(gs.Players[idx].Positions), gs.Players[idx].Positions[j] == p)
+//@     && exists(j, 0, 10, j < len(gs.Players[idx].Positions) && gs.Players[idx].Positions[j] == p)
+//@ spec ListsOK(gs, idx) = 0 <= idx && idx < len(gs.Players) && gs.Players[idx] != nil ==> len(gs.Players[idx].AllowedActions) <= 10 && len(gs.Players[idx].Positions) <= 10
 //@ spec noCall() = ncalls() == old(ncalls())
 //@ spec n0() = old(ncalls())
 //@ spec oneCall(name, id) = ncalls() == old(ncalls()) + 1 && callfn(old(ncalls())) == name && callarg(old(ncalls()), 0) == id
@@ -58,7 +59,7 @@ package actor
 //@ func (*playerRunner).automate
 //@   property C19
 //@   returns err
-//@   requires pr != nil && gs != nil && ActionsWF(pr.actions, pr.actor, pr.playerID)
+//@   requires pr != nil && gs != nil && ActionsWF(pr.actions, pr.actor, pr.playerID) && ListsOK(gs, playerIdx)
 //@   modifies log
 //@   ensures ready-first: hasAct(gs, playerIdx, "ready") ==> oneCall("actor.Adapter.Ready", pr.playerID)
 //@   ensures then-check: !hasAct(gs, playerIdx, "ready") && hasAct(gs, playerIdx, "check") ==> oneCall("actor.Adapter.Check", pr.playerID)
@@ -75,7 +76,7 @@ package actor
 //@ func (*playerRunner).requestMove
 //@   property C19
 //@   returns err
-//@   requires pr != nil && gs != nil && pr.tableInfo != nil && ActionsWF(pr.actions, pr.actor, pr.playerID)
+//@   requires pr != nil && gs != nil && pr.tableInfo != nil && ActionsWF(pr.actions, pr.actor, pr.playerID) && ListsOK(gs, playerIdx)
 //@   modifies log
 //@   ensures pass-immediately: hasAct(gs, playerIdx, "pass") ==> oneCall("actor.Adapter.Pass", pr.playerID)
 //@   ensures suspended-automates-now: !hasAct(gs, playerIdx, "pass") && pr.status == PlayerStatus_Suspend ==> ncalls() <= old(ncalls()) + 1
@@ -93,7 +94,7 @@ package actor
 // what the engine shows a bot that is asked to act (assumed of engine-produced snapshots):
 // at most nine allowed actions, all with known names; "pay" is only allowed while antes or blinds are collected
 //@ spec AskedOK(gs, idx) = GsShape(gs) && 0 <= idx && idx < len(gs.Players) && idx < 10 && 0 <= len(AA(gs, idx)) && len(AA(gs, idx)) <= 9
-//@     && forall(j, 0, 9, j < len(AA(gs, idx)) ==> known9(AA(gs, idx)[j]))
+//@     && forall(j, 0, 9, j < len(AA(gs, idx)) ==> known9(AA(gs, idx)[j])) && len(gs.Players[idx].Positions) <= 10
 //@     && (hasAct(gs, idx, "pay") ==> evAnte(gs) || evBlinds(gs))
 
 //@ func (*botRunner).calcActionProbabilities
